@@ -81,6 +81,14 @@ func genC12Common(t *rapid.T, tier string, crash bool) *c12Prog {
 		maxBlocks = 14
 	}
 	minBlocks := rapid.SampledFrom([]int{1, 5, 10}).Draw(t, "minblocks")
+	if !crash && rapid.IntRange(0, 7).Draw(t, "long") == 0 {
+		// a long-running object: many commits without a reopen in between are common in production and rare in short histories
+		minBlocks, maxBlocks = 34, 50
+		if tier == "thorough" {
+			maxBlocks = 90
+		}
+	}
+	long := minBlocks >= 34
 	var used []string
 	p.Blocks = rapid.SliceOfN(rapid.Custom(func(t *rapid.T) c12Block {
 		var b c12Block
@@ -104,6 +112,9 @@ func genC12Common(t *rapid.T, tier string, crash bool) *c12Prog {
 			b.TW = []kvPair{{K: genKeyHex(t, "tk", 1, 2), V: genValHex(t, "tv", false)}}
 		}
 		b.Reopen = rapid.IntRange(0, 5).Draw(t, "reopen") == 0
+		if long {
+			b.Reopen = rapid.IntRange(0, 39).Draw(t, "reopenlong") == 0
+		}
 		if crash {
 			b.Crash = rapid.IntRange(0, 3).Draw(t, "crash") == 0
 		} else if rapid.IntRange(0, 4).Draw(t, "hasrollback") == 0 {
@@ -354,7 +365,7 @@ func execC12C13(p *c12Prog, c *Case, crashMode bool) *Violation {
 	c.Labelf("keepRecent=%d keepEvery=%d", p.KeepRecent, p.KeepEvery)
 	prunedSeen, retainedOld, reopenAfterDelete, deleted := false, false, false, false
 	replayed, replayedPruning := 0, false
-	probes, views, viewsAfter := 0, 0, 0
+	probes, views, viewsAfter, oldViews := 0, 0, 0, 0
 	crashInside2, crashAfterPrune := false, false
 
 	for bi := range p.Blocks {
@@ -387,6 +398,35 @@ func execC12C13(p *c12Prog, c *Case, crashMode bool) *Violation {
 			}
 			if msg, ok := s.content(rs, model); !ok {
 				return violf("C12/copy-moved-the-original", "during block %d: loading version %d on a copy changed what the live store shows: %s", height, prev, msg)
+			}
+			// ... and every older version, asked of copies of the same long-running object (whatever that object has
+			// come to remember about its past commits): retained => exactly that version, released => refused
+			for v := int64(1); v < prev; v++ {
+				var cp *rootmulti.Store
+				var err error
+				res := catch(func() {
+					cp = (*rs.CopyStore()).(*rootmulti.Store)
+					err = cp.LoadVersion(v)
+				})
+				if res.panicked {
+					return violf("C12/copystore-panic", "during block %d: CopyStore().LoadVersion(%d) on the running store panicked: %v", height, v, res.pv)
+				}
+				if !h.retained[v] {
+					if err == nil {
+						return violf("C12/pruned-version-readable", "during block %d: CopyStore().LoadVersion(%d) on the running store succeeded although the version is pruned (keepRecent=%d keepEvery=%d)", height, v, p.KeepRecent, p.KeepEvery)
+					}
+					continue
+				}
+				if err != nil {
+					return violf("C12/retained-version-unreadable", "during block %d: CopyStore().LoadVersion(%d) on the running store failed for a retained version (keepRecent=%d keepEvery=%d): %v", height, v, p.KeepRecent, p.KeepEvery, err)
+				}
+				if lc := cp.LastCommitID(); lc.Version != v || !bytes.Equal(lc.Hash, h.hashes[v]) {
+					return violf("C12/commit-id", "during block %d: a copy of the running store loaded at version %d reports commit id (%d,%X), version %d was committed as %X", height, v, lc.Version, lc.Hash, v, h.hashes[v])
+				}
+				if msg, ok := s.content(cp, h.snaps[v]); !ok {
+					return violf("C12/content", "during block %d: a copy of the running store loaded at version %d: %s", height, v, msg)
+				}
+				oldViews++
 			}
 			views++
 		}
@@ -569,6 +609,12 @@ func execC12C13(p *c12Prog, c *Case, crashMode bool) *Violation {
 	if viewsAfter > 0 {
 		c.Label("view-read-again-after-the-next-commit")
 	}
+	if oldViews > 0 {
+		c.Label("older-versions-read-through-copies-of-the-running-store")
+	}
+	if len(p.Blocks) > 32 {
+		c.Label("more-than-32-commits-by-one-object")
+	}
 	if replayedPruning {
 		c.Label("replayed-commit-prunes-an-already-released-version")
 	}
@@ -728,7 +774,8 @@ func init() {
 	rule12 := "each case is a history of 1-24 (thorough 60) commits over 1-4 IAVL stores + one transient store with a pruning policy (the three named strategies or " +
 		"keepRecent in {0,1,2,5,100} x keepEvery in {0,1,2,3,5,10000}), eager loading, per-block sets/overwrites/deletes (keys reused across blocks), transient writes, reopen points and (1 block in 5) a restart one block behind: LoadVersion(h-1) when retained, " +
 		"then the block re-executed identically must commit without panic to the same id; (1 block in 6) a LoadVersion of a pruned/future version on the live object must be refused and leave it unchanged; " +
-		"(1 block in 4) while the block's writes are uncommitted a copy of the live store is loaded at the latest committed version: it must show that version's content, leave the live store alone, and show it again after the commit when still retained; " +
+		"(1 block in 4) while the block's writes are uncommitted a copy of the live store is loaded at the latest committed version: it must show that version's content, leave the live store alone, and show it again after the commit when still retained, " +
+		"and copies of that same running object are asked for every older version (retained => that version's id and content, released => refused); 1 history in 8 has 34-50 (thorough 90) commits with rare reopens; " +
 		"after every commit: version step, commit id, content, transient store empty; at every reopen and at the end a fresh store loads every version in [1,latest+1]: retained => committed content " +
 		"and id, pruned/future => error. Non-trivial = the history has a pruned version, a retained non-latest version and a reopen after a delete; distinctness = hash of the program"
 	register(&PropDef{ID: "C12", Rule: rule12, Gen: genC12, New: func() interface{} { return &c12Prog{} }, Exec: execC12,
